@@ -180,4 +180,30 @@ func init() {
 		Assume:  []string{"recording codec stub: the claim is that the body is what the codec named by Content-Type produced, not the byte-level correctness of JSON / protobuf", "q-values are concretised (one fractional digit)", "liberal RFC 7231 reading: a more specific q=0 is not required to veto"},
 		Outside: []string{"Content-Encoding truthfulness (needs the serveHTTP driver; gzip not encoded)", "byte-level JSON / protobuf encodings", "longer Accept headers and q-values with more digits"},
 	})
+
+	driverAssume := []string{"real NewMux + registerService + ServeHTTP run on fake descriptors registered in a real protoregistry.Files", "getExtensionHTTP answered from the fake method options (stub of proto.GetExtension)", "http.ResponseWriter modelled per net/http's documented rules (fakeRW)", "recording codec for application/x; the decoded body's field content is scripted", "net/url query parsing interpreted from source; values are 'plain' query bytes (no escapes)", "math/rand.Intn forked over its range"}
+	addProp(&PropSpec{
+		ID:        "C07",
+		Harnesses: []HarnessSpec{{Name: "VerifH_serveHTTP_params", Covers: []string{"query-rival", "body-rival", "nested-bound", "query-param", "body-star", "body-field"}}},
+		Bounds: map[string]string{
+			"quick":    "rules GET /{f}, GET /x/{h.k}, POST /{f}/y body:*, POST /aa/{f} body:h; capture and competing value: independent symbolic strings of 1..3 plain bytes; competing value supplied through the query string and/or the decoded body; optional second query parameter; body of 1..3 symbolic bytes",
+			"thorough": "same",
+		},
+		Assume:  driverAssume,
+		Outside: []string{"repeated path-bound fields (append semantics make 'authoritative' ill-defined)", "query map iteration orders other than the engine's (one competing key is used, so order does not matter)", "percent-escaped query values"},
+	})
+	addProp(&PropSpec{
+		ID: "C03",
+		Harnesses: []HarnessSpec{
+			{Name: "VerifH_serveHTTP_params", Covers: []string{"query-param", "body-star", "body-field", "nested-bound"}},
+			{Name: "VerifH_params", Covers: []string{"string", "json-name", "bytes", "bytes-rejected", "enum", "enum-rejected", "repeated", "nested", "through-list", "through-map", "unknown-key", "int32", "int32-rejected"}},
+			{Name: "VerifH_http_recv_stream", Covers: []string{"clean-eof"}},
+		},
+		Bounds: map[string]string{
+			"quick":    "query keys by proto and JSON name, dotted paths, repeated keys (2 values), unknown symbolic keys of 1..4 bytes, paths through repeated and map fields; values: strings 0..3 symbolic bytes, bytes fields: every text of 0..4 bytes against the proto3-JSON base64 rule, enum names / numbers of 1..4 ASCII bytes, int32 text of 1..4 bytes; bodies of 1..3 symbolic bytes into the whole message or the body field",
+			"thorough": "bytes texts of 0..6 bytes",
+		},
+		Assume:  append([]string{"encoding/json.Unmarshal modelled exactly for bool / integer targets (JSON integer grammar, range check); other targets are not encoded", "bytes texts with non-zero trailing bits: acceptance unspecified"}, driverAssume...),
+		Outside: []string{"float / double / 64-bit and well-known-type text conversion (protojson / encoding/json reflection is not encoded) - N/A part", "real JSON / protobuf body codecs and gzip: the claim is the plumbing (which bytes reach which codec on which (sub)message, params after the body, first message only) and the string / bytes / enum / int32 / bool conversions"},
+	})
 }
